@@ -16,17 +16,19 @@ use std::rc::Rc;
 
 macro_rules! car {
     ($cell:expr) => {{
-        $cell
-            .car()
-            .ok_or(Error::ExpectedPairButFound($cell.clone()))?
+        match $cell.car() {
+            Some(cell) => cell,
+            None => return Err(Error::ExpectedPairButFound($cell.clone())),
+        }
     }};
 }
 
 macro_rules! cdr {
     ($cell:expr) => {{
-        $cell
-            .cdr()
-            .ok_or(Error::ExpectedPairButFound($cell.clone()))?
+        match $cell.cdr() {
+            Some(cell) => cell,
+            None => return Err(Error::ExpectedPairButFound($cell.clone())),
+        }
     }};
 }
 
